@@ -462,6 +462,7 @@ func checkC09(c *Ctx, r *Report) {
 	r.rule("C09.R2.opt-scan", 2, "popEdns0 / IsEdns0 scan the whole additional section, index 0 included")
 	descendingScanCoversZero(c, r, "C09.R2.opt-scan", "Msg.popEdns0", "an OPT record that is the first additional record is not found: Truncate does not reserve room for it and drops it with the other additional records")
 	descendingScanCoversZero(c, r, "C09.R2.opt-scan", "Msg.IsEdns0", "an OPT record that is the first additional record is not found: the reply is sized without it and the OPT is not retained")
+	packMapThreaded(c, r, "C09.R4.pack-map", "Truncate's size walk under-counts and the truncated reply exceeds the requested size")
 }
 
 // edgeDominatesAny: one of the If's edges edge-dominates target.
